@@ -40,4 +40,6 @@ PQ == (0 :> O("put", 15, 1)) @@ (1 :> O("rscan", 0, 0)) @@ (2 :> O("get", 14, 0)
 PR == (0 :> O("put", 13, 1)) @@ (1 :> O("rscan", 0, 0)) @@ (2 :> O("rem", 14, 0))
 \* s: greatest-key query vs the removal of B2's only key (B2 unlinked, the greatest key is now in B1) and a re-insert
 PS == (0 :> O("put", 10, 1)) @@ (1 :> O("rscan", 0, 0)) @@ (2 :> O("rem", 10, 0))
+\* T: an insert strictly between the two keys of a non-full border (Init2 = {10, 14}) next to a scan and a reader
+PT == (0 :> O("put", 12, 1)) @@ (1 :> O("scan", 0, 0)) @@ (2 :> O("get", 14, 0))
 ====
